@@ -567,7 +567,7 @@ fn rule_addenda(id: &str) -> &'static str {
     match id {
         "C01" => " Added later: a drain step refused for any reason but a clock fault is a violation; integer-limit liquidity amounts; dust-lot round trips; Byzantine providers naming foreign / neighbouring tick arrays.",
         "C03" => " Added later: the rules also run in transfer-fee worlds; the current tick moves with the trade and stays the tick of the price; a v1 route never spends the trader's own intermediate tokens.",
-        "C04" => " Added later: frame-condition monitor (settings / authorities / position claims change only under the recorded authority's signature; identity fields never); third-party delegates, parked tokens, rival config + pool pairs, cross-account neighbouring roles.",
+        "C04" => " Added later: frame-condition monitor (settings / authorities / position claims change only under the recorded authority's signature; identity fields never); third-party delegates, parked tokens, rival config + pool pairs, cross-account neighbouring roles, near-miss keys; accounts are born with the authorities their creator named.",
         "C05" => " Added later: the tick arrays of a pool tile the tick axis; the keeper creates arrays at any start; the life-cycle LP funds whatever range it managed to open or reset to.",
         "C06" => " Added later: a step is never accepted as split-as-configured above the documented protocol-fee cap.",
         "C07" => " Added later: shares are measured against the in-range total of the position accounts (the statement's denominator).",
@@ -580,7 +580,7 @@ fn rule_addenda(id: &str) -> &'static str {
         "C15" => " Added later: frame-condition monitor (no tick array / position / oracle / lock record of another pool changes); one more account appended to fully named calls; routes that do not chain; duplicated slice types; v1 forms on Token-2022 pools; all tick-array slots of a swap filled with foreign empty accounts.",
         "C16" => " Added later: mints that also carry badge-gated extensions (close authority, permanent delegate, default account state) in either order.",
         "C17" => " Added later: cyclic routes; a trader one unit short; fee-aware decomposition of refused routes in transfer-fee / hook worlds; any refusal of the program's own needs a reason the single swaps would have met too; duplicated slice types.",
-        "C18" => " Added later: bundle invariants after every transaction; wrapping addition amounts, a small deposit through the frozen account and a second empty unfrozen account in the locked-position probe; mismatched bundle indexes.",
+        "C18" => " Added later: bundle invariants after every transaction; wrapping addition amounts, a small deposit through the frozen account and a second empty unfrozen account in the locked-position probe; mismatched bundle indexes; bundle deletion with full bitmaps on copies; no use of a position closed earlier in the same transaction.",
         "C19" => " Added later: setters echo their arguments; accumulator x group size at 2^32; group sizes dividing related quantities; bare 82-byte Token-2022 mints, dangling TLV tails, native mints; rewards over the pool's own mints.",
         "C20" => " Added later: tick math sampled over the whole range; liquidity quotes at the u64 edge; amount-delta functions compared at extreme magnitudes on reached prices; SDK calls under a deadline; quotes over the SDK helper's five arrays.",
         _ => "",
